@@ -59,6 +59,10 @@ def program(ta, tb):
     L.append('gA = a; gB = b;')
     L.append('write(gA is bool); write(not (gA is bool)); write((gA is bool) is int); write(gA < gB); write((gA is byte) is int); write(-gA); bool gp = gA is bool; write(gp);')
     L.append("if (gA is bool) { write('T'); } else { write('F'); } writeln();")
+    # unary plus on a global, and ?? with a literal as a condition (truthiness of the chosen operand, not equality with 1)
+    L.append("write(+gA); write(' '); write(gB - +gA); write(' '); gB = +gA; write(gB); write(' '); write(- +gA); gB = b;")
+    L.append("if ((a is bool) ?? true) { write('T'); } else { write('F'); } if ((a is bool) ?? false) { write('T'); } else { write('F'); } "
+             "if (not ((gA is bool) ?? true)) { write('T'); } else { write('F'); } write((a is bool) ?? true); writeln();")
     # compound assignment on byte targets: the operation is done on ints, the result is narrowed
     L.append('byte t = a is byte; byte[] ts = [a is byte, 1];')
     for op, k in BYTE_OPS:
@@ -139,6 +143,8 @@ def expected(ta, tb, a, b, W):
     out.append(b'\n')
     out.append(tf(a != 0) + tf(a == 0) + str(int(a != 0)).encode() + tf(a < b) + str(a & 0xFF).encode() + str(wrap(-a)).encode() + tf(a != 0))
     out.append((b'T' if a != 0 else b'F') + b'\n')
+    out.append(f'{a} {wrap(b - a)} {a} {wrap(-a)}'.encode())
+    out.append((b'T' if a != 0 else b'F') * 2 + (b'F' if a != 0 else b'T') + tf(a != 0) + b'\n')
     lowb = a & 0xFF
     for op, k in BYTE_OPS:
         v = {'+': lowb + k, '-': lowb - k, '*': lowb * k, '/': lowb // k, '%': lowb % k}[op] & 0xFF
@@ -191,6 +197,44 @@ def grid(W, t, tier):
     return vals
 
 
+
+# ---- mixed: one run-time operand, one compile-time constant (literal and const variable): the compiler sees half of the operation
+def mixed_consts(W):
+    bits = 8 * W
+    mx = (1 << (bits - 1)) - 1
+    return [0, 1, 2, 3, 8, 127, 128, 255, 256, 257, 300, 512, 65535 & mx, mx - 1, mx, -1, -2, -128, -255, -256, -257, -300, -mx, -mx - 1, 1 << (bits - 2), -(1 << (bits - 2))]
+
+
+def _lit(k):
+    return str(k) if k >= 0 else f'-{-k}'
+
+
+def mixed_program(ta, K, W):
+    kt = _lit(K)
+    L = [f'const int KC = {kt};', 'byte gY = 0;', f'empty @is_you({ta} a) {{', 'byte t = 0; byte[] ts = [0, 0];']
+    for k in (kt, 'KC', f'({kt})'):
+        for op in ('+', '-', '*'):
+            L.append(f"write(a {op} {k}); write(' '); write({k} {op} a); write(' ');")
+        if K != 0:
+            L.append(f"write(a / {k}); write(' '); write(a % {k}); write(' ');")
+        L.append(f"if (a != 0) {{ write({k} / a); write(' '); write({k} % a); write(' '); }}")
+        for op in CMP:
+            L.append(f'write(a {op} {k}); write({k} {op} a);')
+        L.append(f"if (a == {k}) {{ write('E'); }} if ({k} != a) {{ write('N'); }} if (a < {k}) {{ write('L'); }} if ({k} <= a) {{ write('G'); }}")
+        L.append(f"try {{ !truth_is_defeat(a == {k}); write('n'); }} undo {{ write('d'); }} try {{ !truth_is_defeat({k} > a); write('n'); }} stop {{ write('d'); }}")
+        L.append('writeln();')
+    # compound assignment with the constant, and with a run-time value narrowed on the spot, on byte targets
+    src_b = 'a' if ta == 'byte' else '(a is byte)'
+    for op in ('+', '-', '*'):
+        L.append(f"t = {src_b}; t {op}= {kt}; write(t is int); write(' '); ts[1] = {src_b}; ts[1] {op}= ({kt}); write(ts[1] is int); write(' '); gY = {src_b}; gY {op}= {kt}; write(gY is int); write(' ');")
+    if K != 0:
+        L.append(f"t = {src_b}; t /= {kt}; write(t is int); write(' '); ts[1] = {src_b}; ts[1] %= {kt}; write(ts[1] is int); write(' ');")
+    if ta == 'int':
+        L.append(f"if ((a is byte) is bool) {{ t = 200; t /= a is byte; write(t is int); write(' '); ts[0] = 201; ts[0] /= a is byte; write(ts[0] is int); write(' '); "
+                 f"ts[1] = 202; ts[1] %= a is byte; write(ts[1] is int); write(' '); gY = 203; gY %= a is byte; write(gY is int); int w = {kt}; w /= a is byte; write(w); }}")
+    L.append('writeln(); }')
+    return '\n'.join(L)
+
 COMBOS = [('int', 'int'), ('byte', 'byte'), ('byte', 'int'), ('int', 'byte')]
 
 
@@ -209,6 +253,16 @@ def items(tier):
         for a in lit_values(W):
             out.append((i, 'L', W, a))
             i += 1
+    # one operand known at compile time, the other not
+    for W in Ws:
+        ks = mixed_consts(W)
+        if tier == 'quick':
+            ess = [255, 256, 300, -1, -(1 << (8 * W - 1)), (1 << (8 * W - 1)) - 1]
+            ks = (ks[::2] + [k for k in ess if k not in ks[::2]]) if W == 2 else ess
+        for ta in ('int', 'byte'):
+            for K in ks:
+                out.append((i, 'M', W, ta, K))
+                i += 1
     # unary / casts: every 16-bit value, sharded
     if tier == 'thorough':
         step = 1024
@@ -321,6 +375,14 @@ def run_item(item, tier):
         for b in grid(W, tb, tier):
             _one(st, src, prog, lines, W, ta, tb, a, b)
         st.sample({'types': [ta, tb], 'W': W, 'a': a, 'b_values': len(grid(W, tb, tier))})
+    elif item[1] == 'M':
+        from ..cases import run_program
+        _, _, W, ta, K = item
+        src = mixed_program(ta, K, W)
+        argvs = [[str(v)] for v in grid(W, ta, tier)]
+        run_program(st, src, argvs, [W], f'run-time {ta} operand against the constant {K}')
+        st.add('distinct_nontrivial', len(argvs))
+        st.sample({'family': 'mixed', 'operand_type': ta, 'constant': K, 'W': W, 'operand_values': len(argvs)})
     elif item[1] == 'L':
         _, _, W, a = item
         src = literal_program(a, W)
@@ -407,6 +469,9 @@ def coverage(total, tier):
                   '(0, +-1, +-2, 127/128, 255/256/257, +-2^(8k)+-1, min, max, min+1, max-1, ...: '
                   + ('full grid' if tier == 'thorough' else 'at most 44 values per operand') + ') at W in '
                   + ('2,3,4,8' if tier == 'thorough' else '2,3,4'),
+        'mixed': 'one run-time operand (int or byte, whole grid) against a compile-time constant written as literal, const variable and parenthesised literal ('
+                 + ('26 constants per word size' if tier == 'thorough' else '17 constants at W=2, 6 at W=3,4') + ' incl. min, max, +-255/256/257/300, 2^(n-2)): + - * / % and all comparisons in both orders, as value, branch and '
+                 '!truth_is_defeat argument; op= on byte local / element / global with the constant and with a run-time value narrowed on the spot; oracle: reference interpreter',
         'literals': 'the same operators with both operands written as literals (13 values per word size incl. max, max+1, 2^n-1, 2^n, 2^n+1): all 169 pairs',
         'unary': ('all 65536 values' if tier == 'thorough' else '6 windows of 32 values around the boundaries') + ' at W=2 for - , is byte, is bool, not, *, /, %, <',
     })
@@ -423,6 +488,9 @@ def vacuity(total, tier):
 
 def replay(case):
     st = Stats()
+    if case.get('kind') == 'conformance':
+        from ..cases import replay_conformance
+        return replay_conformance(case)
     if case['kind'] == 'lit':
         st2 = run_item((0, 'L', case['W'], case['a']), 'quick')
         return [v['msg'] for v in st2.get('viol', [])]
